@@ -713,6 +713,12 @@ def run_launch(case: dict[str, Any]) -> Outcome:
 
 
 def main(chk: Check) -> None:
+    # regression inputs of repaired findings (replayed without the generator)
+    reg = Path(__file__).resolve().parent.parent / "replays" / "C33" / "regression-stale-idle-timer.json"
+    if reg.exists():
+        from lib import harness as _h
+
+        chk.case("accept", _h.loads(reg.read_text())["case"], run_accept)
     chk.explore("accept", _accept_cases(), run_accept, quick=450, thorough=16000)
     chk.explore("accept_edge", _accept_edge_cases(), run_accept, quick=900, thorough=12000)
     chk.explore("launch", _launch_cases(), run_launch, quick=350, thorough=10000)
